@@ -170,7 +170,7 @@ func RunDeterminism(fam *Family, tier, rule string) int {
 	if err != nil {
 		return infra(prop, err)
 	}
-	cfg := "SPECIFICATION Spec\nCONSTANTS\n  Schemas <- SchemasDef\n  MapIds <- MapIdsDef\n  PkgOf <- PkgOfDef\n  OutOf <- OutOfDef\n  Props <- PropsDef\n  D = {}\nINVARIANT OrderIndependent\nCHECK_DEADLOCK FALSE\n"
+	cfg := "SPECIFICATION Spec\nCONSTANTS\n  Schemas <- SchemasDef\n  MapIds <- MapIdsDef\n  PkgOf <- PkgOfDef\n  OutOf <- OutOfDef\n  Props <- PropsDef\n  Exts <- ExtsDef\n  Cands <- CandsDef\n  D = {}\nINVARIANT OrderIndependent\nCHECK_DEADLOCK FALSE\n"
 	mc, err := tlc.Run(tlc.Opts{Module: "MC_MapOrder", Cfg: cfg, Dir: filepath.Join(sc.Dir, "tlc-mo"), Workers: 4, Timeout: 5 * time.Minute, HeapGB: 2})
 	if err != nil {
 		return infra(prop, err)
